@@ -63,7 +63,7 @@ def observe(results):
     return out
 
 
-def run_validation(groups, env, soll_is_required, entry="deep", text_preset=None):
+def run_validation(groups, env, soll_is_required, entry="deep", text_preset=None, parent=None):
     """('ok', observation) | ('exc', exception class name)"""
 
     def call():
@@ -76,6 +76,10 @@ def run_validation(groups, env, soll_is_required, entry="deep", text_preset=None
             coro = validate_segment_level(build_segment(groups[0]), soll_is_required)
         elif entry == "segment":
             coro = validate_segment(ahb.lines[0].segments[0], soll_is_required=soll_is_required)
+        elif entry == "group_direct":  # the documented parent status handed in by the caller
+            coro = validate_segment_group(ahb.lines[0], STATUS[parent] if parent else None, soll_is_required)
+        elif entry == "segment_direct":
+            coro = validate_segment(ahb.lines[0].segments[0], STATUS[parent] if parent else None, soll_is_required)
         else:
             raise ValueError(entry)
         return observe(I.run(coro, env))
